@@ -114,6 +114,13 @@ pub fn generate(rng: &mut Rng, idx: usize, tier: Tier) -> CaseOut {
         tags.push(format!("count:{}", if count > 7 { "8+".to_string() } else { count.to_string() }));
         tags.push(format!("n:{}", if n > 6 { "big".to_string() } else { n.to_string() }));
     }
+    // a third of the files also hold a block on which ANOTHER rule reports (a repeated key under keep-unique):
+    // the line-count diagnostics of the file must all still be there
+    if rng.chance(1, 3) {
+        let w = word(lang, rng);
+        nodes.push(simple_block(lang, rng, TagSrc::simple(&[("name", "other"), ("keep-unique", "")]), &[w.clone(), w]));
+        tags.push("with-other-rule".into());
+    }
     let r = render(&FileSpec { lang, nodes, crlf: rng.chance(1, 6), final_newline: !rng.chance(1, 8) });
     let path = format!("src/f{}.{}", idx % 7, lang.suffixes[rng.below(lang.suffixes.len())]);
     let path = if lang.suffixes[0] == "Makefile" { "Makefile".to_string() } else { path };
@@ -128,9 +135,12 @@ pub fn generate(rng: &mut Rng, idx: usize, tier: Tier) -> CaseOut {
     let mut violating = 0;
     for (k, bi) in outer.iter().enumerate() {
         let b = &r.blocks[*bi];
-        let p = &planned[k];
         let content = content_of(&r, *bi);
         tables.add_block(&b.attrs, content);
+        if k >= planned.len() {
+            continue; // the block with the other rule
+        }
+        let p = &planned[k];
         let sev = p.sev.map(sev_num).unwrap_or(1);
         intents.push(format!(
             "({}, mkintent09 {} {} {} {} {} {})",
